@@ -20,6 +20,11 @@ const char *c14SpecialName(C14Special s)
     case C14Special::SPELLING_IN_MATH: return "spelling-in-math";
     case C14Special::SPLIT_GROUPS: return "split-groups";
     case C14Special::DEEP_EXTRAS: return "deep-extras";
+    case C14Special::MATH_ELEMENT_ID: return "math-element-id";
+    case C14Special::MATHML_NS_ANCESTOR: return "mathml-ns-on-ancestor";
+    case C14Special::GROUP_CONNECTION_ID: return "group-connection-id";
+    case C14Special::SPLIT_TREES: return "split-trees";
+    case C14Special::SCOPED_UNITS_COPIES: return "scoped-units-copies";
     }
     return "?";
 }
@@ -59,6 +64,10 @@ struct W
     std::vector<std::vector<std::string>> math; // transformed math blocks per component
     std::vector<bool> compDeclares; // xmlns:<compPfx> on the component element
     std::vector<int> home; // per units: component index it is declared in, -1 = model
+    std::string elemPfx; // "" or "cellml:" ...: prefix of every CellML element
+    std::string mathmlModelPfx; // MATHML_NS_ANCESTOR: "" = MathML is the default namespace of the document, else prefix declared on model
+    bool mathmlOnModel = false;
+    std::vector<std::vector<int>> copiesIn; // SCOPED_UNITS_COPIES: per units, the components holding a copy
     std::string deepKind; // DEEP_EXTRAS: chosen location
     bool deepDone = false;
 
@@ -103,7 +112,7 @@ struct W
             ++doc.counts[name];
         }
         shuffle(attrs);
-        o << "<" << name;
+        o << "<" << (name.find(':') == std::string::npos ? elemPfx : std::string()) << name;
         for (const auto &a : attrs) {
             o << " " << a.first << "=\"" << xmlEscape(a.second) << "\"";
         }
@@ -116,7 +125,7 @@ struct W
     {
         --depth;
         nl();
-        o << "</" << name << ">";
+        o << "</" << (name.find(':') == std::string::npos ? elemPfx : std::string()) << name << ">";
     }
     void raw(const std::string &s)
     {
@@ -235,6 +244,73 @@ struct W
             }
             r.insert(at, " " + nsDecl);
         }
+        // 4. a local xmlns:cmeta (math blocks that carry cmeta:id): keep it, or rely on the declaration on the model element
+        {
+            const std::string cdecl = std::string("xmlns:cmeta=\"") + NSCMETA + "\"";
+            size_t cp = r.find(cdecl);
+            if (cp != std::string::npos) {
+                size_t tagEnd = r.find('>');
+                bool idOnMath = r.substr(0, tagEnd).find("cmeta:id=") != std::string::npos;
+                bool strip = special(C14Special::MATH_ELEMENT_ID) ? true : (idOnMath ? false : src.flip(50));
+                if (strip) {
+                    size_t b = cp;
+                    while (b > 0 && (r[b - 1] == ' ' || r[b - 1] == '\n' || r[b - 1] == '\t')) {
+                        --b;
+                    }
+                    r.erase(b, cp + cdecl.size() - b);
+                    doc.cmetaDeclOnModelOnly = true;
+                    if (special(C14Special::MATH_ELEMENT_ID) && idOnMath) {
+                        doc.specialRealised = true;
+                    }
+                }
+                doc.cmetaIdUsed = true;
+            }
+        }
+        // 5. MathML namespace: default on <math> (as generated), prefixed with a local declaration, or taken from the model element
+        {
+            const std::string mdecl = std::string("xmlns=\"") + NSMATH + "\"";
+            std::string mp; // element prefix for this block
+            bool dropDecl = false;
+            if (special(C14Special::MATHML_NS_ANCESTOR)) {
+                dropDecl = true;
+                mp = mathmlModelPfx;
+                mathmlOnModel = true;
+                doc.specialRealised = true;
+            } else if (opt.mathmlPrefix && src.flip(60)) {
+                mp = "m";
+            }
+            size_t mpos = r.find(mdecl);
+            if (mpos != std::string::npos && (dropDecl || !mp.empty())) {
+                if (dropDecl) {
+                    size_t b = mpos;
+                    while (b > 0 && (r[b - 1] == ' ' || r[b - 1] == '\n' || r[b - 1] == '\t')) {
+                        --b;
+                    }
+                    r.erase(b, mpos + mdecl.size() - b);
+                } else {
+                    r.replace(mpos, mdecl.size(), "xmlns:" + mp + "=\"" + NSMATH + "\"");
+                }
+            }
+            if (!mp.empty()) {
+                std::string t;
+                for (size_t i = 0; i < r.size(); ++i) {
+                    t += r[i];
+                    if (r[i] == '<') {
+                        size_t k = i + 1;
+                        if (k < r.size() && r[k] == '/') {
+                            t += '/';
+                            ++i;
+                            ++k;
+                        }
+                        if (k < r.size() && ((r[k] >= 'a' && r[k] <= 'z') || (r[k] >= 'A' && r[k] <= 'Z'))) {
+                            t += mp + ":";
+                        }
+                    }
+                }
+                r = t;
+                doc.mathmlPrefixed = true;
+            }
+        }
         if (cns > 0) {
             switch (placement) {
             case ON_MATH: doc.nsOnMath = true; break;
@@ -254,6 +330,19 @@ struct W
         static const std::vector<std::string> prefixes = {"cellml", "cellml", "cml", "c1", "units"};
         modelPfx = src.pick(prefixes);
         compPfx = src.pick(prefixes);
+        if (opt.elementPrefix) {
+            elemPfx = src.flip(50) ? "c:" : "cellml:";
+        }
+        if (special(C14Special::MATHML_NS_ANCESTOR)) {
+            if (src.flip(50)) {
+                mathmlModelPfx = ""; // MathML is the default namespace of the document: the CellML elements need a prefix
+                if (elemPfx.empty()) {
+                    elemPfx = "cellml:";
+                }
+            } else {
+                mathmlModelPfx = src.flip(50) ? "m" : "mathml";
+            }
+        }
         math.resize(spec.comps.size());
         compDeclares.assign(spec.comps.size(), false);
         for (size_t ci = 0; ci < spec.comps.size(); ++ci) {
@@ -285,6 +374,11 @@ struct W
     void planUnits()
     {
         home.assign(spec.units.size(), -1);
+        copiesIn.assign(spec.units.size(), {});
+        modelToo.assign(spec.units.size(), false);
+        if (special(C14Special::SCOPED_UNITS_COPIES)) {
+            planCopies();
+        }
         if (!opt.unitsInComponents) {
             return;
         }
@@ -300,7 +394,7 @@ struct W
         for (size_t k = spec.units.size(); k > 0; --k) {
             size_t ui = k - 1;
             const auto &u = spec.units[ui];
-            if (u.import >= 0) {
+            if (u.import >= 0 || !copiesIn[ui].empty() || pinnedToModel.count(ui) != 0) {
                 continue;
             }
             std::set<int> where;
@@ -341,10 +435,66 @@ struct W
         }
     }
 
-    void writeUnits(const UnitsSpec &u)
+    std::vector<bool> modelToo;
+    std::set<size_t> pinnedToModel;
+    std::set<int> usersOf(const UnitsSpec &u) const
+    {
+        std::set<int> where;
+        for (size_t ci = 0; ci < spec.comps.size(); ++ci) {
+            const auto &c = spec.comps[ci];
+            bool uses = false;
+            for (const auto &v : c.vars) {
+                uses = uses || v.units == u.name;
+            }
+            for (const auto &m : c.math) {
+                uses = uses || m.find("units=\"" + u.name + "\"") != std::string::npos;
+            }
+            if (uses) {
+                where.insert(static_cast<int>(ci));
+            }
+        }
+        return where;
+    }
+    // SCOPED_UNITS_COPIES: a units that is used by two or more components and referred to by no other units is declared,
+    // identically, inside each of these components (legal 1.x scoping; what a rewriter that copies units next to their
+    // users produces). The units it refers to stay at the model level, where every copy can see them.
+    void planCopies()
+    {
+        for (size_t ui = 0; ui < spec.units.size(); ++ui) {
+            const auto &u = spec.units[ui];
+            if (u.import >= 0 || u.units.empty()) {
+                continue; // (two base units of the same name in two components would be two different units)
+            }
+            bool referred = false;
+            for (const auto &v : spec.units) {
+                for (const auto &child : v.units) {
+                    referred = referred || child.ref == u.name;
+                }
+            }
+            std::set<int> where = usersOf(u);
+            if (referred || where.size() < 2) {
+                continue;
+            }
+            copiesIn[ui].assign(where.begin(), where.end());
+            modelToo[ui] = src.flip(30);
+            for (const auto &child : u.units) {
+                for (size_t ri = 0; ri < spec.units.size(); ++ri) {
+                    if (spec.units[ri].name == child.ref) {
+                        pinnedToModel.insert(ri);
+                    }
+                }
+            }
+            doc.specialRealised = true;
+            doc.componentUnits = true;
+        }
+    }
+
+    void writeUnits(const UnitsSpec &u, bool withIds = true)
     {
         Attrs a {{"name", u.name}};
-        addId(a, u.id);
+        if (withIds) {
+            addId(a, u.id);
+        }
         if (u.units.empty()) {
             a.emplace_back("base_units", "yes");
         } else if (opt.explicitDefaults && src.flip(50)) {
@@ -382,7 +532,9 @@ struct W
             if (deep("unit-offset-attr")) {
                 ua.emplace_back("offset", src.flip(50) ? "0.0" : "0");
             }
-            addId(ua, c.id);
+            if (withIds) {
+                addId(ua, c.id);
+            }
             if (deep("unit-ext-attr")) {
                 ua.emplace_back("ext:note", "deep");
             }
@@ -478,7 +630,7 @@ struct W
         // attributes are already in their final order: bypass the shuffle of open()
         nl();
         ++doc.counts["variable"];
-        o << "<variable";
+        o << "<" << elemPfx << "variable";
         for (const auto &at : a) {
             o << " " << at.first << "=\"" << xmlEscape(at.second) << "\"";
         }
@@ -505,9 +657,18 @@ struct W
             extAttr(a);
         }
         std::vector<size_t> unitsHere;
+        std::set<size_t> withoutIds;
         for (size_t ui = 0; ui < spec.units.size(); ++ui) {
             if (home[ui] == static_cast<int>(ci)) {
                 unitsHere.push_back(ui);
+            }
+            for (size_t k = 0; k < copiesIn[ui].size(); ++k) {
+                if (copiesIn[ui][k] == static_cast<int>(ci)) {
+                    unitsHere.push_back(ui);
+                    if (modelToo[ui] || k > 0) {
+                        withoutIds.insert(ui); // XML ids are unique: the first copy carries them
+                    }
+                }
             }
         }
         bool rdfChild = opt.extras && src.flip(25);
@@ -520,7 +681,7 @@ struct W
         int unitsPos = unitsHere.empty() ? 0 : static_cast<int>(src.below(3)); // before the variables, after them, after the math
         auto writeUnitsHere = [&]() {
             for (size_t ui : unitsHere) {
-                writeUnits(spec.units[ui]);
+                writeUnits(spec.units[ui], withoutIds.count(ui) == 0);
             }
         };
         if (rdfChild && src.flip(50)) {
@@ -585,13 +746,16 @@ struct W
     void openGroup(bool encapsulation)
     {
         Attrs ga;
-        if (opt.extras && src.flip(30)) {
-            ga.emplace_back("cmeta:id", "group_id_to_be_dropped");
+        if (encapsulation && !spec.encId.empty()) {
+            // GROUP_CONNECTION_ID: the id of the 2.0 encapsulation element sits on the encapsulation group
+            addId(ga, spec.encId);
+            doc.specialRealised = true;
+        } else if (!encapsulation && opt.extras && src.flip(30)) {
+            ga.emplace_back("cmeta:id", "containment_group_id_to_be_dropped");
             ++doc.extrasWritten;
         }
         open("group", ga, false);
         ++doc.groups;
-        (void)encapsulation;
     }
     void relationshipRefs(bool encapsulation, bool alsoContainment)
     {
@@ -660,14 +824,16 @@ struct W
         const auto &c2 = spec.comps[static_cast<size_t>(cn.c2)];
         bool swap = src.flip(40);
         Attrs ca {{"component_1", swap ? c2.name : c1.name}, {"component_2", swap ? c1.name : c2.name}};
-        addId(ca, cn.id);
+        Attrs conA;
+        if (special(C14Special::GROUP_CONNECTION_ID) && !cn.id.empty() && (!connIdMoved || src.flip(60))) {
+            addId(conA, cn.id); // on <connection>, the element that carries it in 2.0
+            connIdMoved = true;
+            doc.specialRealised = true;
+        } else {
+            addId(ca, cn.id);
+        }
         if (opt.extras && src.flip(20)) {
             extAttr(ca);
-        }
-        Attrs conA;
-        if (opt.extras && src.flip(30)) {
-            conA.emplace_back("cmeta:id", "connection_id_to_be_dropped");
-            ++doc.extrasWritten;
         }
         open("connection", conA, false);
         bool componentsLast = src.below(8) == 7;
@@ -748,6 +914,7 @@ struct W
         close("import");
     }
     bool modelXlink = false;
+    bool connIdMoved = false;
 
     // ---- document
     C14Doc run()
@@ -814,7 +981,7 @@ struct W
             }
         }
         for (size_t ui = 0; ui < spec.units.size(); ++ui) {
-            if (spec.units[ui].import < 0 && home[ui] < 0) {
+            if (spec.units[ui].import < 0 && home[ui] < 0 && (copiesIn[ui].empty() || modelToo[ui])) {
                 items.emplace_back([this, ui]() { writeUnits(spec.units[ui]); });
             }
         }
@@ -872,10 +1039,39 @@ struct W
                     }
                 }
             } else {
-                items.emplace_back([this, roots]() {
+                bool nested = false;
+                for (int p : parents) {
+                    nested = nested || spec.comps[static_cast<size_t>(p)].parent >= 0;
+                }
+                const bool trees = special(C14Special::SPLIT_TREES) && nested;
+                if (trees) {
+                    doc.specialRealised = true;
+                }
+                items.emplace_back([this, roots, parents, trees]() {
                     std::vector<std::function<void()>> refs;
-                    for (int r : roots) {
-                        refs.emplace_back([this, r]() { writeComponentRef(r, true, true); });
+                    if (trees) {
+                        // one group, one component_ref tree per parent listing only its direct children (a>b, b>c)
+                        for (int p : parents) {
+                            refs.emplace_back([this, p]() {
+                                const auto &pc = spec.comps[static_cast<size_t>(p)];
+                                Attrs a {{"component", pc.name}};
+                                if (pc.parent < 0) {
+                                    addId(a, pc.encId);
+                                }
+                                open("component_ref", a, false);
+                                for (int k : spec.childrenOf(p)) {
+                                    writeComponentRef(k, false, true);
+                                }
+                                close("component_ref");
+                            });
+                        }
+                        if (src.flip(40)) {
+                            std::reverse(refs.begin(), refs.end());
+                        }
+                    } else {
+                        for (int r : roots) {
+                            refs.emplace_back([this, r]() { writeComponentRef(r, true, true); });
+                        }
                     }
                     writeEncapsulationGroup(refs);
                 });
@@ -915,12 +1111,27 @@ struct W
         if (!spec.name.empty()) {
             a.emplace_back("name", spec.name);
         }
-        a.emplace_back("xmlns", ns);
+        const std::string ep = elemPfx.empty() ? std::string() : elemPfx.substr(0, elemPfx.size() - 1);
+        const bool mathmlDefault = mathmlOnModel && mathmlModelPfx.empty();
+        if (ep.empty()) {
+            a.emplace_back("xmlns", ns);
+        } else {
+            a.emplace_back("xmlns:" + ep, ns);
+            doc.cellmlElementsPrefixed = true;
+            if (mathmlDefault) {
+                a.emplace_back("xmlns", NSMATH);
+            } else if (src.flip(30)) {
+                a.emplace_back("xmlns", ns); // the default namespace is declared as well, but not used by the CellML elements
+            }
+        }
+        if (mathmlOnModel && !mathmlModelPfx.empty()) {
+            a.emplace_back("xmlns:" + mathmlModelPfx, NSMATH);
+        }
         addId(a, spec.id);
         if (doc.cmetaIdUsed || opt.extras || opt.cmetaId || body.str().find("cmeta:") != std::string::npos) {
             a.emplace_back("xmlns:cmeta", NSCMETA);
         }
-        if (modelDeclares) {
+        if (modelDeclares && modelPfx != ep) {
             a.emplace_back("xmlns:" + modelPfx, ns);
         }
         if (modelXlink) {
